@@ -99,8 +99,9 @@ def run(ctx):
     ctx.assumptions += ['projection (harness/proj.py) and the embedding builder (harness/c05_embed.py: string '
                         'concatenation, ast.parse, tokenize) are trusted',
                         'f-string internals only as part of whole corpus nodes; CPython 3.12.1 only',
-                        'modes "all"/"strict" (guessing modes) and Load/Store/Del (accept anything, documented) are '
-                        'outside the judged domain']
+                        'guessing modes "all"/"strict"/None: the returned node is judged in the mode named by its own '
+                        'class, a refusal only against "exec"; Load/Store/Del (accept anything, documented) are outside '
+                        'the judged domain']
     table_path = emit_table(ctx)
     table, matrix = drv.load_table(table_path)
     pool = drv.build_pool(ctx.seed, 3 if ctx.quick else 8)
@@ -150,3 +151,90 @@ def replay(ctx, path):
                     print('embedding', repr(e))
             print('verdict', sorted(verd[tr['id']]['bad']))
     return ctx.finish()
+
+
+def selftest(ctx):
+    """Binding demonstration: corrupt one recorded field of an accepted trace; TLC must reject it naming the clause."""
+    import copy
+    from harness import c05_driver as drv
+    table_path = emit_table(ctx)
+    cases = [{'mode': 'expr', 'text': 'a + b', 'cat': 'selftest', 'api': 'FST'},
+             {'mode': 'keyword', 'text': 'k = "é" + v', 'cat': 'selftest', 'api': 'fromsrc'},
+             {'mode': '_withitems', 'text': 'a as b, c', 'cat': 'selftest', 'api': 'FST'}]
+    base = drv.run_shard((0, table_path, [(i + 1, [c]) for i, c in enumerate(cases)], ctx.seed))
+
+    def slim(b):
+        return dict(b, traces=[{'id': t['id'], 'steps': [{k: v for k, v in s.items() if k not in ('embs', 'exc')}
+                                                         for s in t['steps']]} for t in b['traces']])
+
+    ok = True
+    v0 = ctx.validate(slim(base), module='ParseTrace', heap='3g')
+    print('uncorrupted:', {k: v['bad'] for k, v in v0.items()})
+    ok &= all(not v['bad'] for v in v0.values())
+
+    def expect(name, mutate, tid, clause):
+        nonlocal ok
+        b = copy.deepcopy(base)
+        mutate(b, b['traces'][tid - 1]['steps'][0])
+        v = ctx.validate(slim(b), module='ParseTrace', heap='3g')
+        got = sorted({c for _, c, _ in v[tid]['bad']})
+        others = {k: x['bad'] for k, x in v.items() if k != tid and x['bad']}
+        good = got == [clause] and not others
+        ok &= good
+        print(f'{name}: trace {tid} rejected with {got} (expected [{clause!r}]), other traces {others or "accepted"}'
+              f' -> {"ok" if good else "BINDING FAILURE"}')
+
+    def shift_col(b, ev):
+        g = ev['got']['root']
+        ent = copy.deepcopy(b['ptab'][g - 1])
+        ent['p'][1] += 1
+        b['ptab'].append(ent)
+        ev['got']['root'] = len(b['ptab'])
+
+    def shift_child(b, ev):  # one column of a grand-child of the returned keyword
+        g = ev['got']['root']
+        ent = copy.deepcopy(b['ptab'][g - 1])
+        fi = next(i for i, f in enumerate(ent['f']) if f['n'] == 'value')
+        c = copy.deepcopy(b['ptab'][ent['f'][fi]['c'][0] - 1])
+        c['p'][3] += 1
+        b['ptab'].append(c)
+        ent['f'][fi]['c'][0] = len(b['ptab'])
+        b['ptab'].append(ent)
+        ev['got']['root'] = len(b['ptab'])
+
+    def other_text(b, ev):
+        b['ttab'].append(b['ttab'][ev['text'] - 1] + [[32]])
+        ev['got']['src'] = len(b['ttab'])
+
+    def say_reject(b, ev):
+        ev['outcome'] = 'reject'
+
+    def unbalance(b, ev):
+        for a in ev['alts']:
+            a['balanced'] = False
+
+    def drop_item(b, ev):
+        g = ev['got']['root']
+        ent = copy.deepcopy(b['ptab'][g - 1])
+        for f in ent['f']:
+            if f['n'] == 'items':
+                f['c'] = f['c'][:1]
+        b['ptab'].append(ent)
+        ev['got']['root'] = len(b['ptab'])
+
+    expect('root column + 1', shift_col, 1, 'TreeIsSubtree.pos')
+    expect('grand-child end line + 1 (byte columns, non-ASCII text)', shift_child, 2, 'TreeIsSubtree.pos')
+    expect('kept source differs by one blank', other_text, 1, 'TextKept')
+    expect('outcome logged as reject', say_reject, 2, 'RejectedOnlyIfInvalid')
+    expect('oracle fact balanced := FALSE', unbalance, 1, 'AcceptedOnlyIfValid')
+    b = copy.deepcopy(base)
+    drop_item(b, b['traces'][2]['steps'][0])
+    v = ctx.validate(slim(b), module='ParseTrace', heap='3g')
+    got = sorted({c for _, c, _ in v[3]['bad']})
+    good = got == ['TreeIsSubtree.pos', 'TreeIsSubtree.struct']
+    ok &= good
+    print(f'second with-item dropped from the returned container: {got} -> {"ok" if good else "BINDING FAILURE"}')
+    ctx.evals += 7
+    print('SELFTEST', 'PASS' if ok else 'FAIL')
+    ctx.finish()
+    return 0 if ok else 1
